@@ -112,7 +112,19 @@ class StoreState:
         n = self.n
         self.clock.tick()
         if self.gate is not None:
-            self.gate(kind, name)
+            ctx = ""
+            if kind in ("read", "getmtime"):
+                # call-site tag: a peek at the parent package of a missing submodule is not a
+                # dependency load (build.in_partial_package creates a temporary State)
+                f = sys._getframe(1)
+                depth = 0
+                while f is not None and depth < 40:
+                    if f.f_code.co_name == "in_partial_package":
+                        ctx = "partial_package_probe"
+                        break
+                    f = f.f_back
+                    depth += 1
+            self.gate(kind, name, ctx)
         self.log.append([n, kind, name])
         p = self.plan
         if p.crash_before == n:
